@@ -178,6 +178,7 @@ class Program:
             for f in d["fns"]:
                 f["unit"] = unit
                 f["npath"] = norm_path(f["path"])
+                f["body"] = normalise_tree(f["body"])
                 self.fns[(unit, f["npath"])] = f
                 self.by_path.setdefault(f["npath"], []).append(f)
             for c in d["consts"]:
@@ -275,3 +276,78 @@ def load(repo=None, verbose=False):
     prog = Program(fdir, key)
     prog.fresh = fresh
     return prog
+
+
+
+# --------------------------------------------------------------------------- tree normalisation
+# `match e { P => A, Q => B }` (P binding / refutable, Q the complementary unit-like pattern or `_`),
+# `if let P = e { A } else { B }` and `let P = e else { B }; A...` are one construct; all become
+#     if (let P = e) { A } else { B }
+# so that guards, bindings and path enumeration treat them alike.
+
+_UNITLIKE = ("ppath", "pwild")
+
+
+def _is_complement(p):
+    k = p.get("k")
+    if k in _UNITLIKE:
+        return True
+    if k == "ptstruct" and not p.get("ps"):
+        return True
+    return False
+
+
+def _binds_something(p):
+    k = p.get("k")
+    if k == "pbind":
+        return True
+    for key in ("ps",):
+        for x in p.get(key, []) or []:
+            if _binds_something(x):
+                return True
+    if k == "pref":
+        return _binds_something(p["pat"])
+    for f in p.get("fields", []) or []:
+        if _binds_something(f.get("pat", {})):
+            return True
+    if p.get("sub"):
+        return _binds_something(p["sub"])
+    return False
+
+
+def normalise_tree(n):
+    if isinstance(n, list):
+        return [normalise_tree(x) for x in n]
+    if not isinstance(n, dict):
+        return n
+    for k, v in list(n.items()):
+        if isinstance(v, (dict, list)):
+            n[k] = normalise_tree(v)
+    k = n.get("k")
+    if k == "match" and len(n.get("arms", [])) == 2 and not n["arms"][0].get("guard") and not n["arms"][1].get("guard") \
+            and n.get("src", "").startswith("Normal"):
+        a, b = n["arms"]
+        pa, pb = a["pat"], b["pat"]
+        main = other = None
+        if pa.get("k") in ("ptstruct", "pstruct") and _binds_something(pa) and _is_complement(pb):
+            main, other = a, b
+        elif pb.get("k") in ("ptstruct", "pstruct") and _binds_something(pb) and _is_complement(pa):
+            main, other = b, a
+        if main is not None:
+            return {"k": "if", "ty": n.get("ty"), "sp": n.get("sp"), "mac": n.get("mac"), "from_match": True,
+                    "cond": {"k": "letexpr", "ty": "bool", "sp": main["pat"].get("sp", n.get("sp")),
+                             "pat": main["pat"], "init": n["e"]},
+                    "then": main["body"], "else": other["body"]}
+    if k == "block":
+        stmts = n.get("stmts", [])
+        for i, st in enumerate(stmts):
+            if st.get("k") == "let" and st.get("els") is not None and st.get("init") is not None:
+                rest = {"k": "block", "sp": st.get("sp"), "stmts": stmts[i + 1:], "expr": n.get("expr")}
+                rest = normalise_tree(rest)
+                iff = {"k": "if", "ty": n.get("ty", "()"), "sp": st.get("sp"), "from_let_else": True,
+                       "cond": {"k": "letexpr", "ty": "bool", "sp": st.get("sp"), "pat": st["pat"], "init": st["init"]},
+                       "then": rest, "else": st["els"]}
+                n["stmts"] = stmts[:i]
+                n["expr"] = iff
+                break
+    return n
